@@ -9,5 +9,5 @@ Proof.
   intros Hp. intros HR HI Hs. pres_start_part s l Hs Hp.
   all: destruct HR; destruct HI; constructor; unf; cbn in *.
   all: try assumption.
-  all: try solve [timeout 20 fin2].
+  all: fin2.
 Qed.
